@@ -130,6 +130,8 @@ pub open spec fn kept_lines(raw: Seq<Seq<u8>>, which: int) -> Seq<Seq<u8>>
     }
 }
 pub tracked struct WrittenLines { pub ghost lines: Seq<Seq<u8>> }
+// what an `ensure_*` call did: whether a lazy rebuild it started failed
+pub tracked struct Ensured { pub ghost rebuild_failed: bool }
 pub struct RFile { pub of: Ghost<Seq<Seq<u8>>>, pub filler: u8 }
 #[verifier::external_body] pub fn open_file(p: &PathBuf) -> (r: IoResult<RFile>) ensures r matches Ok(f) ==> f.of@ == raw_lines_of(*p) { unimplemented!() }
 pub struct BufReader { pub filler: u8 }
@@ -301,26 +303,45 @@ impl ContinuityStreamCache {
         proof { assert(raw_lines_of(*full_sidecar_path).subrange(0, raw_lines_of(*full_sidecar_path).len() as int) =~= raw_lines_of(*full_sidecar_path)); }
     //@@ end
 
+    // the two lazy rebuilds as the `ensure_*` functions see them: their contract proved above (which files they read and write) plus a
+    // record of a failure
+    #[verifier::external_body]
+    pub fn rebuild_mr_noted(&self, Tracked(e): Tracked<&mut Ensured>, id: &str, full: &PathBuf, mr: &PathBuf) -> (ret: IoResult<()>)
+        requires *full == Self::file_of(id@, 0) && *mr == Self::file_of(id@, 1),      // [ensure.a_lazy_rebuild_reads_this_threads_full_sidecar_and_writes_its_own_derived_sidecar]
+        ensures final(e).rebuild_failed == (old(e).rebuild_failed || ret is Err),
+    { unimplemented!() }
+    #[verifier::external_body]
+    pub fn rebuild_cp_noted(&self, Tracked(e): Tracked<&mut Ensured>, id: &str, full: &PathBuf, cp: &PathBuf) -> (ret: IoResult<()>)
+        requires *full == Self::file_of(id@, 0) && *cp == Self::file_of(id@, 2),      // [ensure.a_lazy_rebuild_reads_this_threads_full_sidecar_and_writes_its_own_derived_sidecar]
+        ensures final(e).rebuild_failed == (old(e).rebuild_failed || ret is Err),
+    { unimplemented!() }
+
     // when a lazy rebuild happens and what is answered: only this thread's own derived file is ever answered
     //@@ fn crates/ripd/src/continuity_stream_cache.rs ContinuityStreamCache::ensure_messages_runs_sidecar_best_effort_v1
-    //@@ rewrite continuity_id, &full_path, ==>> continuity_id, Tracked(&mut w), &full_path,
+    //@@ rewrite &str ==>> &str, Tracked(e): Tracked<&mut Ensured>
+    //@@ rewrite self.rebuild_messages_runs_from_full_sidecar_best_effort_v1( ==>> self.rebuild_mr_noted(Tracked(&mut *e),
     //@@ sig
+        requires !old(e).rebuild_failed,
         ensures ret matches Ok(Some(p)) ==> p == Self::file_of(continuity_id@, 1),      // [ensure.only_this_threads_messages_runs_sidecar_is_answered]
-    //@@ entry
-        let tracked mut w = WrittenLines { lines: Seq::empty() };
+            ret is Ok ==> !final(e).rebuild_failed,      // [ensure.a_lazy_rebuild_that_failed_is_an_error_not_an_absent_cache]
     //@@ end
 
     //@@ fn crates/ripd/src/continuity_stream_cache.rs ContinuityStreamCache::ensure_compaction_checkpoints_sidecar_best_effort_v1
-    //@@ rewrite continuity_id, &full_path, ==>> continuity_id, Tracked(&mut w), &full_path,
+    //@@ rewrite &str ==>> &str, Tracked(e): Tracked<&mut Ensured>
+    //@@ rewrite self.rebuild_compaction_checkpoints_from_full_sidecar_best_effort_v1( ==>> self.rebuild_cp_noted(Tracked(&mut *e),
     //@@ sig
+        requires !old(e).rebuild_failed,
         ensures ret matches Ok(Some(p)) ==> p == Self::file_of(continuity_id@, 2),      // [ensure.only_this_threads_checkpoint_sidecar_is_answered]
-    //@@ entry
-        let tracked mut w = WrittenLines { lines: Seq::empty() };
+            ret is Ok ==> !final(e).rebuild_failed,      // [ensure.a_lazy_rebuild_that_failed_is_an_error_not_an_absent_cache]
     //@@ end
 
     //@@ fn crates/ripd/src/continuity_stream_cache.rs ContinuityStreamCache::ensure_compaction_checkpoints_index_best_effort_v1
+    //@@ rewrite &str ==>> &str, Tracked(e): Tracked<&mut Ensured>
+    //@@ rewrite self.ensure_compaction_checkpoints_sidecar_best_effort_v1(continuity_id) ==>> self.ensure_compaction_checkpoints_sidecar_best_effort_v1(continuity_id, Tracked(&mut *e))
     //@@ sig
+        requires !old(e).rebuild_failed,
         ensures ret matches Ok(Some(p)) ==> p == Self::file_of(continuity_id@, 3),      // [ensure.only_this_threads_checkpoint_index_is_answered]
+            ret is Ok ==> !final(e).rebuild_failed,      // [ensure.a_lazy_rebuild_that_failed_is_an_error_not_an_absent_cache]
     //@@ end
 }
 
